@@ -895,12 +895,15 @@ def broadcast_and_apply(  # noqa: C901
                 isinstance(x, ak.layout.RegularArray) or not isinstance(x, listtypes)
                 for x in inputs
             ):
-                maxsize = max(
-                    [x.size for x in inputs if isinstance(x, ak.layout.RegularArray)]
-                )
+                # size 1 stretches to the other size, which may be 0 (as in NumPy)
+                maxsize = 1
+                for x in inputs:
+                    if isinstance(x, ak.layout.RegularArray) and x.size != 1:
+                        maxsize = x.size
+                        break
                 for x in inputs:
                     if isinstance(x, ak.layout.RegularArray):
-                        if maxsize > 1 and x.size == 1:
+                        if maxsize != 1 and x.size == 1:
                             tmpindex = ak.layout.Index64(
                                 nplike.repeat(
                                     nplike.arange(len(x), dtype=np.int64), maxsize
@@ -909,7 +912,7 @@ def broadcast_and_apply(  # noqa: C901
                 nextinputs = []
                 for x in inputs:
                     if isinstance(x, ak.layout.RegularArray):
-                        if maxsize > 1 and x.size == 1:
+                        if maxsize != 1 and x.size == 1:
                             nextinputs.append(
                                 ak.layout.IndexedArray64(
                                     tmpindex, x.content[: len(x) * x.size]
